@@ -389,6 +389,11 @@ def mk(plen=0, rlen=0, szx0=6, mps=1124, choices=(), default=(6, False), etag="c
          "szx0": szx0, "mps": mps, "choices": [list(x) for x in choices], "default": list(default),
          "method": method, "fresh_remote": fresh_remote}
     if mis is not None:
+        if mis.get("kind") == "etag_change":
+            # the replaced representation must differ in its ETag (a change no ETag tells of is not detectable)
+            after = mis.get("etag", "ee")
+            if (after == "none" and etag is None) or after == etag:
+                mis = dict(mis, etag="ee" if etag != "ee" else "ef")
         c["mis"] = mis
     if limit is not None:
         c["limit"] = limit
@@ -518,6 +523,13 @@ def boundary_cases():
     # the server puts Observe into a 2.31 although the request did not ask for it
     for n in (0, 1):
         cases.append(mk(plen=3072, rlen=6, szx0=6, method="FETCH", mis={"kind": "observe_continue", "n": n}))
+    # the representation changes in mid-transfer: ETag -> other ETag, ETag -> no ETag, no ETag -> ETag, at the
+    # second, a middle and the last block
+    for before, after in (("c0ffee", "ee"), ("c0ffee", "none"), (None, "ee"), ("01", "0100"), ("01", "none")):
+        for n in (0, 1, 5):
+            for szx in (0, 3):
+                cases.append(mk(plen=0, rlen=100 if szx == 0 else 900, szx0=6, default=(szx, False), method="GET",
+                                etag=before, mis={"kind": "etag_change", "n": n, "etag": after}))
     for cut in (0, 1, 14, 15):
         for n in (0, 1, 2):
             cases.append(mk(plen=0, rlen=100, szx0=6, default=(0, False), method="GET",
@@ -587,6 +599,8 @@ def random_case(rng):
                 mis["diag"] = rng.random() < 0.5
             if kind == "b2_szx_grows":
                 mis["by"] = rng.choice([1, 1, 2, 3, 6])
+            if kind == "etag_change":
+                mis["etag"] = rng.choice(["ee", "ee", "none", "01", "c0ffee00"])
             if kind == "fail_mid_noopt":
                 mis["code"] = rng.choice([136, 141, 128, 160])
                 mis["diag"] = rng.randrange(0, 11)
